@@ -1,7 +1,8 @@
 (* Property C12 — translation to and from FPCore preserves meaning.
    Only statements, each closed by `exact`, each followed by Print Assumptions. *)
 From Coq Require Import ZArith List String Bool.
-From FpyV Require Import Backend.FPCore Backend.FPCoreProofs Backend.ToFPCore Backend.ToFPCoreProofs.
+From FpyV Require Import Backend.FPCore Backend.FPCoreProofs Backend.ToFPCore Backend.ToFPCoreProofs
+  Backend.FromFPCore Backend.FromFPCoreProofs.
 Import ListNotations.
 Open Scope Z_scope.
 
@@ -80,3 +81,49 @@ Theorem C12_fpc_context_iso_refuted :
     exists p, from_context c = Some p /\ to_context p <> Some c.
 Proof. exact context_iso_coded_refuted. Qed.
 Print Assumptions C12_fpc_context_iso_refuted.
+
+(* FPCore -> FPy (frontend/fpc.py, expression / let / let* / if / `!` subset,
+   annotations that fix the number format — which is what the backend emits),
+   with a name generator that never reuses a name: the function read back
+   evaluates to what the core evaluates to (`agree`: equal values, or both
+   evaluations fail). *)
+Theorem C12_from_fpcore_sound :
+  forall (V : Type) (N : numops V),
+    (forall rm z, n_num N (CMPFixed (-1) rm) z = n_int N z) ->
+    forall p f, from_fpcore_fixed p = Some f -> cprog_ok p = true ->
+    forall fuel cdef Pdef args, good Pdef cdef ->
+    agree (run_func V N fuel cdef f args) (run_core V N fuel Pdef p args).
+Proof. exact from_fpcore_sound. Qed.
+Print Assumptions C12_from_fpcore_sound.
+
+(* with Gensym.refresh as it is (stale cached hash) a taken name is reused *)
+Theorem C12_from_fpcore_as_coded_refuted :
+  exists p f args a b,
+    from_fpcore_as_coded p = Some f /\ cprog_ok p = true /\
+    run_func Z zops 1 FP64c f args = Ok a /\ run_core Z zops 1 no_props p args = Ok b /\ a <> b.
+Proof. exact from_fpcore_as_coded_refuted. Qed.
+Print Assumptions C12_from_fpcore_as_coded_refuted.
+
+Theorem C12_from_fpcore_fixed_witness :
+  exists f, from_fpcore_fixed capture_core = Some f /\ cprog_ok capture_core = true /\
+    run_func Z zops 1 FP64c f [2; 5] = Ok 30 /\ run_core Z zops 1 no_props capture_core [2; 5] = Ok 30.
+Proof. exact from_fpcore_fixed_witness. Qed.
+Print Assumptions C12_from_fpcore_fixed_witness.
+
+(* compiling (repaired backend) and re-reading (repaired Gensym) a function does not change its behaviour *)
+Theorem C12_roundtrip_sound :
+  forall (V : Type) (N : numops V),
+    (forall rm z, n_num N (CMPFixed (-1) rm) z = n_int N z) ->
+    forall f p f', to_fpcore_fixed f = Some p -> ctxs_func expressible f = true ->
+    from_fpcore_fixed p = Some f' ->
+    forall fuel cdef Pdef args, good Pdef cdef ->
+    agree (run_func V N fuel cdef f' args) (run_func V N fuel cdef f args).
+Proof. exact roundtrip_sound. Qed.
+Print Assumptions C12_roundtrip_sound.
+
+Theorem C12_roundtrip_witness :
+  exists p f', to_fpcore_fixed witness_func = Some p /\ ctxs_func expressible witness_func = true /\
+    from_fpcore_fixed p = Some f' /\
+    run_func Z zops 1 FP64c f' witness_args = run_func Z zops 1 FP64c witness_func witness_args.
+Proof. exact roundtrip_witness. Qed.
+Print Assumptions C12_roundtrip_witness.
